@@ -142,7 +142,7 @@ class Run(object):
             self.groups.extend(part)
             path = os.path.join(self.tmp, "groups_%d.json" % base)
             with open(path, "w") as f:
-                json.dump([{x: g[x] for x in ("gid", "kind", "def", "members")} for g in part], f, separators=(",", ":"))
+                json.dump([{x: g[x] for x in g if x != "replay"} for g in part], f, separators=(",", ":"))
             res = tlc.run("Groups", env={"TRACE_FILE": path}, workers=16, timeout=1500, workdir=self.tmp)
             os.unlink(path)
             if res["rc"] != 0 or res["distinct"] != len(part) + min(16, 16):
